@@ -247,7 +247,7 @@ class CountingCuckooFilter(CuckooFilter):
         # and move things around to the other index, if possible, until we
         # either move everything around or hit the maximum number of swaps
         idx = random.choice([idx_1, idx_2])
-        prv_bin = CountingCuckooBin(fingerprint, 1)
+        prv_bin = CountingCuckooBin(fingerprint, count)
         for _ in range(self.max_swaps):
             # select one element to be swapped out...
             swap_elm = random.randint(0, self.bucket_size - 1)
